@@ -168,7 +168,7 @@ def run_twin(ns, fam, ops_in=None, seed=0, profile="basic", n_steps=30):
                     raise InvalidProgram(op)
             if kind == "cexit" and cls_cnt[0] == 0:
                 raise InvalidProgram(op)
-            if kind == "ext" and any_buffered(op[1]):
+            if kind in ("ext", "extdel") and any_buffered(op[1]):
                 raise InvalidProgram(op)
             known = sorted(set(obj_res))
             held_before = {r: all_buffered(r) for r in known}
@@ -264,6 +264,11 @@ def run_twin(ns, fam, ops_in=None, seed=0, profile="basic", n_steps=30):
                 wb.write(op[1], op[2])
                 start_sig[op[1]] = file_sig(wa.path(op[1]))
                 touched.discard(op[1])
+            elif kind == "extdel":
+                wa.delete(op[1])
+                wb.delete(op[1])
+                start_sig[op[1]] = file_sig(wa.path(op[1]))
+                touched.discard(op[1])
             else:
                 la = ra.exec(op)
                 if kind == "enter":
@@ -300,7 +305,10 @@ def run_twin(ns, fam, ops_in=None, seed=0, profile="basic", n_steps=30):
                     try:
                         exp += os.path.getsize(wb.path(r))
                     except FileNotFoundError:
-                        exp += 2
+                        # unbuffered, the file does not exist (yet): the logical content is what the
+                        # twin's object on that file holds in memory (constructor data, or empty)
+                        mem = [b_objs[i]._to_base() for i, rr in enumerate(obj_res) if rr == r]
+                        exp += len(json.dumps(mem[0]).encode()) if mem else 2
                 if exp != size:
                     viol.append((("C15",), "after %s the reported size is %d but the buffered files %s encode to %d bytes" % (kind, size, files, exp)))
                 else:
@@ -324,7 +332,11 @@ def run_twin(ns, fam, ops_in=None, seed=0, profile="basic", n_steps=30):
                 if not any_buffered(r):
                     a, b = _norm_missing(wa.read(r), is_dict), _norm_missing(wb.read(r), is_dict)
                     if not strict_eq(a, b):
-                        viol.append((("C05", "C06"), "no object on r%d is buffered any more: the file holds %r, unbuffered execution gives %r" % (r, a, b)))
+                        props = ("C05", "C06")
+                        if r not in touched and file_sig(wa.path(r)) != start_sig.get(r):
+                            props = props + ("C17",)       # and no mutator was ever called on it
+                        viol.append((props, "no object on r%d is buffered any more: the file holds %r, unbuffered execution gives %r%s" % (
+                            r, a, b, " (no mutator was called on this file: a read-only buffered use wrote it)" if "C17" in props else "")))
                     else:
                         stats["flush_checks"] += 1
 
@@ -615,6 +627,7 @@ def run_conflict(ns, fam, ops_in=None, seed=0, n_steps=30):
         wa = World(ns, fam, tmp)
         ra = Runner(ns, wa)
         g = bgen.BufGen(rng, ra, fam, **params)
+        g.allow_extdel = True
         if ops_in is None:
             is_dict, ops = bgen.buf_setup(rng, g, objs_per_res=1)
             todo = None
@@ -646,15 +659,30 @@ def run_conflict(ns, fam, ops_in=None, seed=0, n_steps=30):
                 if ris and op[2] in MUTATORS and obj_res[ris[0]] in reported:
                     r = obj_res[ris[0]]
                     protected.pop(r, None)
+            existed_before = kind == "extdel" and os.path.exists(wa.path(op[1]))
             lines = ra.exec(op)
             if kind == "open":
                 obj_res.append(op[2])
-            if kind == "ext":
+            if kind == "extdel" and not existed_before:
+                return      # removing a file that is not there (possible after shrinking) changes nothing
+            if kind == "extdel" and in_buffer(op[1]) and cls._buffer[wa.path(op[1])]["metadata"] is None:
+                # the file did not exist when it entered the buffer and does not exist again: the
+                # state the conflict check compares with is restored (detection is by metadata, an
+                # assumption of the claim), so this is not a detectable outside change
+                stats["outside_writes"] += 1
+                protected.pop(op[1], None)
+                stale.discard(op[1])
+                reported.discard(op[1])
+                return
+            if kind in ("ext", "extdel"):
                 stats["outside_writes"] += 1
                 if in_buffer(op[1]):
                     stats["outside_writes_while_buffered"] += 1
-                    with open(wa.path(op[1]), "rb") as f:
-                        protected[op[1]] = f.read()
+                    if kind == "ext":
+                        with open(wa.path(op[1]), "rb") as f:
+                            protected[op[1]] = f.read()
+                    else:
+                        protected[op[1]] = None      # removed from outside: must stay missing
                     stale.add(op[1])
                     reported.discard(op[1])
                 return
